@@ -365,6 +365,13 @@ func driver(propID, tier string) int {
 			idx = append(idx, k)
 		}
 		sort.Strings(idx)
+		if len(idx) > 400 { // an even sample of the sampled runs is re-executed
+			var pick []string
+			for k := 0; k < 400; k++ {
+				pick = append(pick, idx[k*len(idx)/400])
+			}
+			idx = pick
+		}
 		ws, err := spawnWorker(propID, tier, base, 0, total, strings.Join(idx, ","), 1)
 		if err != nil {
 			fmt.Fprintf(os.Stderr, "simcheck: determinism re-run failed: %v\n", err)
